@@ -276,19 +276,18 @@ lemma condReg_good {n : Nat} {s : St} (h : n ≤ s.size) (a : Nat) (kw : Kw) : G
     have hb : n ≤ (s.makeCopy a).2 := by rw [makeCopy_addr]; exact h
     have h2 := syncInner_step h1.le a
     have h12 := h1.trans h2
-    generalize hk : (match valNat (s.nameOf a) with | some k => List.filter (fun p => decide (p.1 ≠ k)) kw | none => kw) = kw'
-    have h3 := condDist_good h12.le g kw'
+    have h3' := fun kw' => condDist_good h12.le g kw'
     split
     · next s3 g' heq =>
-      rw [heq] at h3
+      have h3 : Good n ((s.makeCopy a).1.syncInner a) (s3, .obj g') := by rw [← heq]; exact h3' _
       have h123 := h12.trans h3.step
       have h4 := step_write h123.le (s.makeCopy a).2 .gauss (.ref g') (Or.inl hb)
       have h1234 := h123.trans h4
       split
       · exact (toLikelihood_good h1234.le _ _).mono h1234
       · exact ⟨h1234, fun r hr => by simp only [Res.obj.injEq] at hr; rw [← hr, makeCopy_addr]; exact Nat.le_refl _⟩
-    · next s3 r heq _ =>
-      rw [heq] at h3
+    · next s3 r _ heq =>
+      have h3 : Good n ((s.makeCopy a).1.syncInner a) (s3, r) := by rw [← heq]; exact h3' _
       exact good_err (h12.trans h3.step)
   · exact good_err (Step.refl h)
 
@@ -317,7 +316,7 @@ lemma condLik_good {n : Nat} {s : St} (h : n ≤ s.size) (a : Nat) (kw : Kw) : G
         split
         · exact (toLikelihood_good h123.le _ _).mono h123
         · exact ⟨h123, fun r hr => by simp only [Res.obj.injEq] at hr; rw [← hr, alloc_addr]; exact Nat.le_refl _⟩
-    · next s2 r heq _ =>
+    · next s2 r _ heq =>
       rw [heq] at h2
       exact good_err (h1.trans h2.step)
   · exact good_err (Step.refl h)
@@ -345,5 +344,96 @@ lemma condDens_res (s : St) (a : Nat) (kw : Kw) :
   · exact Or.inl ((condLik_good h0 a kw).fresh r hr)
   · next he => simp only [Res.obj.injEq] at hr; exact Or.inr ⟨hr.symm, he⟩
   · exact absurd hr (by simp)
+
+/-! ## joint conditioning -/
+
+/-- invariant on the entries already replaced: fresh (≥ n) or an evaluated density -/
+def EntryOk (n : Nat) (s : St) (d : Nat) : Prop := n ≤ d ∨ (d < s.size ∧ s.cls d = .eval)
+
+lemma EntryOk.mono {n : Nat} {s s' : St} {d : Nat} (h : Step n s s') (hd : EntryOk n s d) : EntryOk n s' d := by
+  rcases hd with hd | ⟨h1, h2⟩
+  · exact Or.inl hd
+  · exact Or.inr ⟨Nat.lt_of_lt_of_le h1 h.size, by rw [h.cls d h1]; exact h2⟩
+
+lemma condList_spec {n : Nat} (kw : Kw) (j : Nat) (hj : n ≤ j) :
+    ∀ (rest : List Nat) (s : St) (pre : List Nat), n ≤ s.size →
+      (∀ d ∈ pre, EntryOk n s d) → (∀ d ∈ rest, d < s.size) →
+      Step n s (condList kw j s pre rest).1 ∧
+      ∀ ds, (condList kw j s pre rest).2 = some ds → ∀ d ∈ ds, EntryOk n (condList kw j s pre rest).1 d := by
+  intro rest
+  induction rest with
+  | nil =>
+    intro s pre h hpre _
+    refine ⟨Step.refl h, ?_⟩
+    intro ds hds d hd
+    simp only [condList, Option.some.injEq] at hds
+    subst hds
+    exact hpre d hd
+  | cons d0 rest ih =>
+    intro s pre h hpre hrest
+    unfold condList
+    have h1 := condDens_step h d0 (restrictKw kw (s.parNamesDens d0))
+    have hres := condDens_res s d0 (restrictKw kw (s.parNamesDens d0))
+    split
+    · next s1 d' heq =>
+      rw [heq] at h1
+      have hres' := hres d' (by rw [heq])
+      have h2 := step_write h1.le j .dens (.refs (pre ++ d' :: rest)) (Or.inl hj)
+      have h12 := h1.trans h2
+      have hpre' : ∀ d ∈ pre ++ [d'], EntryOk n (s1.write j .dens (.refs (pre ++ d' :: rest))) d := by
+        intro d hd
+        rcases List.mem_append.1 hd with hd | hd
+        · exact (hpre d hd).mono h12
+        · simp only [List.mem_singleton] at hd
+          subst hd
+          rcases hres' with hf | ⟨he, hc⟩
+          · exact Or.inl (Nat.le_trans h hf)
+          · subst he
+            have hlt : d < s.size := hrest d (List.mem_cons_self)
+            exact EntryOk.mono h12 (Or.inr ⟨hlt, hc⟩)
+      have hrest' : ∀ d ∈ rest, d < (s1.write j .dens (.refs (pre ++ d' :: rest))).size := by
+        intro d hd
+        exact Nat.lt_of_lt_of_le (hrest d (List.mem_cons_of_mem _ hd)) h12.size
+      have := ih (s1.write j .dens (.refs (pre ++ d' :: rest))) (pre ++ [d']) h12.le hpre' hrest'
+      exact ⟨h12.trans this.1, this.2⟩
+    · next s1 r _ heq =>
+      rw [heq] at h1
+      exact ⟨h1, fun ds hds => absurd hds (by simp)⟩
+
+lemma reduce_good {n : Nat} {s : St} (h : n ≤ s.size) (j : Nat) (hj : n ≤ j) (ds : List Nat)
+    (hds : ∀ d ∈ ds, EntryOk n s d) :
+    Step n s (s.reduce j ds).1 ∧ ∀ r, (s.reduce j ds).2 = .obj r → n ≤ r := by
+  have hdist : ∀ d, d ∈ ds.filter (fun d => (s.cls d).isDist) → n ≤ d := by
+    intro d hd
+    rcases List.mem_filter.1 hd with ⟨hm, hc⟩
+    rcases hds d hm with hh | ⟨_, he⟩
+    · exact hh
+    · rw [he] at hc; exact absurd hc (by decide)
+  have hlik : ∀ d, d ∈ ds.filter (fun d => decide (s.cls d = .lik)) → n ≤ d := by
+    intro d hd
+    rcases List.mem_filter.1 hd with ⟨hm, hc⟩
+    rcases hds d hm with hh | ⟨_, he⟩
+    · exact hh
+    · rw [he] at hc; exact absurd hc (by decide)
+  unfold St.reduce
+  dsimp only
+  split
+  · exact ⟨Step.refl h, fun r hr => by simp only [Res.obj.injEq] at hr; omega⟩
+  · exact ⟨step_alloc h _, fun r hr => by simp only [alloc_addr, Res.obj.injEq] at hr; omega⟩
+  · next d l hd hl =>
+    split
+    · have h1 := step_alloc h (Obj.ofList .post [(.lik, .ref l), (.prior, .ref d), (.const, .num 0)])
+      refine ⟨h1.trans (step_write h1.le _ .const _ (Or.inl (by rw [alloc_addr]; exact h))), ?_⟩
+      intro r hr
+      simp only [alloc_addr, Res.obj.injEq] at hr
+      omega
+    · exact ⟨Step.refl h, fun r hr => by simp only [Res.obj.injEq] at hr; omega⟩
+  · next d hd hl =>
+    have hdn : n ≤ d := hdist d (by rw [hd]; simp)
+    exact ⟨step_write h d .const _ (Or.inl hdn), fun r hr => by simp only [Res.obj.injEq] at hr; omega⟩
+  · next l hd hl =>
+    have hln : n ≤ l := hlik l (by rw [hl]; simp)
+    exact ⟨Step.refl h, fun r hr => by simp only [Res.obj.injEq] at hr; omega⟩
+  · exact ⟨Step.refl h, fun r hr => by simp only [Res.obj.injEq] at hr; omega⟩
 
 end CuqiVerif.C11
